@@ -106,10 +106,20 @@ def check_tx(spec, ctx):
     # frameshift (a base inside an exon skipped by the CDS) makes it a proper sub-sequence of that run
     C = rm.positions(spec["cds"], strand)
     gapped = bool(spec.get("cds_gapped"))
-    if not gapped:
+    # a -1 programmed frameshift (two CDS blocks overlapping by a base or two): the overlapped bases occur twice in the CDS, so
+    # a chromosome position may have two CDS positions (either is a right answer) and sub-intervals are compared as multisets
+    # where a Location cannot represent the order (C01 findings F1/F2)
+    overlapped = bool(spec.get("cds_overlapped"))
+    if overlapped:
+        ctx.nt("cds_with_overlapping_blocks")
+        ctx.eq("generator_consistency", sorted(set(C)), sorted(T[i:j]))
+    elif not gapped:
         ctx.eq("generator_consistency", C, T[i:j])
     else:
         ctx.nt("cds_with_skipped_base")
+    pre = {}
+    for c_, p_ in enumerate(C):
+        pre.setdefault(p_, []).append(c_)
     tindex = {p: t for t, p in enumerate(T)}
     m = len(C)
     cset = set(C)
@@ -134,15 +144,15 @@ def check_tx(spec, ctx):
         ctx.nt()
     for c, p in enumerate(C):
         ctx.eq("cds_pos_to_sequence", tx.cds_pos_to_sequence(c), p)
-        ctx.eq("sequence_pos_to_cds", tx.sequence_pos_to_cds(p), c)
+        ctx.true("sequence_pos_to_cds", tx.sequence_pos_to_cds(p) in pre[p], {"got": tx.sequence_pos_to_cds(p), "expected": pre[p]})
         ctx.eq("cds_pos_to_transcript", tx.cds_pos_to_transcript(c), tindex[p])
-        ctx.eq("transcript_pos_to_cds", tx.transcript_pos_to_cds(tindex[p]), c)
+        ctx.true("transcript_pos_to_cds", tx.transcript_pos_to_cds(tindex[p]) in pre[p], {"got": tx.transcript_pos_to_cds(tindex[p]), "expected": pre[p]})
         # chromosome -> CDS equals chromosome -> transcript -> CDS
         ctx.eq("path_commutes", tx.transcript_pos_to_cds(tx.sequence_pos_to_transcript(p)), tx.sequence_pos_to_cds(p))
-        ctx.eq("sequence_pos_to_amino_acid", tx.cds.sequence_pos_to_amino_acid(p), c // 3)
+        ctx.true("sequence_pos_to_amino_acid", tx.cds.sequence_pos_to_amino_acid(p) in [c_ // 3 for c_ in pre[p]], {"got": tx.cds.sequence_pos_to_amino_acid(p), "expected": [c_ // 3 for c_ in pre[p]]})
         if not chunk:
             ctx.eq("cds_pos_to_chunk_relative", tx.cds_pos_to_chunk_relative(c), p)
-            ctx.eq("chunk_relative_pos_to_cds", tx.chunk_relative_pos_to_cds(p), c)
+            ctx.true("chunk_relative_pos_to_cds", tx.chunk_relative_pos_to_cds(p) in pre[p], {"got": tx.chunk_relative_pos_to_cds(p), "expected": pre[p]})
     for t, p in enumerate(T):
         if p not in cset:
             expect_reject(ctx, "sequence_pos_to_cds_outside_accepted", tx.sequence_pos_to_cds, p)
@@ -159,11 +169,16 @@ def check_tx(spec, ctx):
         for rs in "+-":
             res = tx.cds_interval_to_sequence(a, b, STRAND[rs])
             want = C[a:b] if rs == "+" else C[a:b][::-1]
-            ctx.eq("cds_interval_to_sequence", rm.loc_positions(res), want, extra=[a, b, rs])
+            if overlapped:
+                ctx.eq("cds_interval_to_sequence", sorted(rm.loc_positions(res)), sorted(want), extra=[a, b, rs])
+            else:
+                ctx.eq("cds_interval_to_sequence", rm.loc_positions(res), want, extra=[a, b, rs])
     for cs, ce in spec["chr_intervals"]:
         cs, ce = lo - 1 + cs % (hi - lo + 2), lo - 1 + ce % (hi - lo + 2)
         cs, ce = max(0, min(cs, ce)), max(cs, ce) + 1
         common = [c for c, p in enumerate(C) if cs <= p < ce]
+        if overlapped:
+            continue  # the relative image of a window on a self-overlapping location is finding F2 of C01
         try:
             res = tx.sequence_interval_to_cds(cs, ce, STRAND["+"])
         except LocationOverlapException:
@@ -201,8 +216,13 @@ def check_tx(spec, ctx):
     if utr5 is not None and utr3 is not None and not chunk:
         allp = rm.loc_positions(utr5) + rm.loc_positions(tx.cds_location) + rm.loc_positions(utr3)
         # with a skipped base the three parts cover the exons except that base
-        ctx.eq("utr_cds_partition_in_order", allp, [p for t, p in enumerate(T) if t < i or t >= j or p in cset])
-        ctx.eq("utr_cds_disjoint", len(set(allp)), len(allp))
+        if overlapped:
+            ctx.eq("utr_cds_partition_in_order", allp, T[:i] + C + T[j:])
+            ctx.eq("utr_cds_disjoint", len(set(allp)), len(allp) - (len(C) - len(cset)))
+            ctx.eq("utr_cds_cover_exons", sorted(set(allp)), sorted(T))
+        else:
+            ctx.eq("utr_cds_partition_in_order", allp, [p for t, p in enumerate(T) if t < i or t >= j or p in cset])
+            ctx.eq("utr_cds_disjoint", len(set(allp)), len(allp))
     if utr5 is not None and utr3 is not None and chunk and g:
         # on the chunk: the UTR pieces spell the corresponding stretches of the chunk sequence
         cg = g[chunk[0]:chunk[1]]
@@ -217,14 +237,14 @@ def check_tx(spec, ctx):
         if utr5 is not None and utr3 is not None:
             parts = (str(utr5.extract_sequence()) if len(utr5) else "") + str(tx.cds_location.reset_parent(parent).extract_sequence()) + \
                     (str(utr3.extract_sequence()) if len(utr3) else "")
-            if not gapped:
+            if not gapped and not overlapped:
                 ctx.eq("utr_cds_sequence_concat", parts, mrna)
 
 
 @st.composite
 def strat_tx(draw, tier="quick"):
     big = tier == "thorough"
-    sp = draw(S.transcript_spec(max_exons=5 if not big else 6, max_len=8 if not big else 12, frameshift_prob=20, cds_gap_prob=6))
+    sp = draw(S.transcript_spec(max_exons=5 if not big else 6, max_len=8 if not big else 12, frameshift_prob=20, cds_gap_prob=6, cds_overlap_prob=6))
     if len(sp["exons"]) > 1 and "cds" not in sp and draw(st.booleans()):
         # (coding transcripts are documented by their validation messages to take sorted exon lists; non-coding ones need not)
         sp["exon_order"] = list(draw(st.permutations(list(range(len(sp["exons"]))))))
@@ -255,7 +275,7 @@ PROP = Prop(
     pid="C06",
     legs=[
         Leg("transcript", check_tx, strategy=strat_tx, examples=EX, n_quick=900, n_thorough=9000, shards_quick=4,
-            must_hit=["cds_reaches_3p&multi_exon", "cds_reaches_5p&multi_exon", "cds_on_exon_boundary", "single_exon_full_cds", "minus", "noncoding", "cds_with_skipped_base", "chunk_cuts_transcript", "chunk_cuts_utr", "exons_given_unsorted"],
+            must_hit=["cds_reaches_3p&multi_exon", "cds_reaches_5p&multi_exon", "cds_on_exon_boundary", "single_exon_full_cds", "minus", "noncoding", "cds_with_skipped_base", "cds_with_overlapping_blocks", "chunk_cuts_transcript", "chunk_cuts_utr", "exons_given_unsorted"],
             rule="transcripts (1..5/6 exons, both strands, coding with the CDS a contiguous run [i,j) of the transcript biased to ends and exon boundaries, or non-coding), with/without sequence, on the whole chromosome or seen through a sequence chunk that contains/cuts/misses it; every transcript, CDS and chromosome position in span+-1, random intervals in each system, UTRs, introns"),
     ],
     rule="Oracle: PosModel lists T (transcript) and C=T[i:j] (CDS). Non-trivial: multi-exon and (CDS at an end or on an exon boundary or minus strand). "
